@@ -87,7 +87,7 @@ class C13(Profile):
     components = dict(COMPONENTS_COMMON,
                       real=COMPONENTS_COMMON['real'] + ['stix2.base', 'stix2.properties', 'stix2.versioning', 'stix2.markings', 'stix2.parsing',
                                                         'stix2.environment', 'stix2.datastore.memory', 'stix2.datastore.filesystem', 'tmpfs'],
-                      simulated=COMPONENTS_COMMON['simulated'] + ['I/O error injection', 'process crash', 'readdir order'])
+                      simulated=COMPONENTS_COMMON['simulated'] + ['I/O error injection', 'process crash', 'readdir order', 'file time stamps (disk-owned clock, plan-chosen granularity)'])
 
     # ------------------------------------------------------------------ generation
     def generate(self, rng, index, tier):
